@@ -16,6 +16,8 @@ def configs(n, labels):
         out.append((f"treatment(base={labels[b]!r})", TreatmentContrasts(base=labels[b]), ref.as_float(ref.treatment(n, b)), False))
     out.append(("treatment()", TreatmentContrasts(), ref.as_float(ref.treatment(n, 0)), False))
     out.append(("SAS()", SASContrasts(), ref.as_float(ref.sas(n)), False))
+    for b in range(n):
+        out.append((f"SAS(base={labels[b]!r})", SASContrasts(base=labels[b]), ref.as_float(ref.sas(n, b)), False))
     out.append(("sum()", SumContrasts(), ref.as_float(ref.sum_(n)), True))
     for rev, sc in itertools.product((True, False), (True, False)):
         out.append((f"helmert(reverse={rev},scale={sc})", HelmertContrasts(reverse=rev, scale=sc), ref.as_float(ref.helmert(n, rev, sc)), True))
@@ -54,7 +56,15 @@ def _ground(contr, labels, want, zero_sum, n):
     return None
 
 
+LABEL_TYPES = ("str", "int", "mixed", "zero-int", "empty-str")
+
+
 def labels_for(n, ltype):
+    """Level labels by type; 'zero-int' and 'empty-str' hold a FALSY label (0, '') away from the first and last position where n allows."""
+    if ltype == "zero-int":
+        return ([1, 0] + list(range(2, n)))[:n] if n >= 2 else [0]
+    if ltype == "empty-str":
+        return (["b", ""] + [f"c{k}" for k in range(2, n)])[:n] if n >= 2 else [""]
     return {"str": [f"l{k}" for k in range(n)], "int": list(range(10, 10 + n)), "mixed": [f"{'zyxwvuts'[k]}" for k in range(n)]}[ltype]
 
 
